@@ -23,6 +23,28 @@ def pLevel : P (Option SLevel) := do
   let id ← pChars; let ty ← pChars; let sq ← pOptSeq; let pl ← pOptPlace
   pure (pl.map fun p => ⟨id, ty, sq, p⟩)
 
+/-- `N` or a raw location -/
+def pOptRawLoc : P (Option RawLoc) := do
+  match (← get) with
+  | "N" :: rest => set rest; pure none
+  | _ => do let r ← pRawLoc; pure (some r)
+
+def pTarget : P (Option (Blk × Strand)) := do
+  match (← get) with
+  | "W" :: rest => set rest; pure none
+  | _ => do let a ← pNat; let b ← pNat; let s ← pStrand; pure (some ((a, b), s))
+
+/-- `E` | `<location> ; ~<letters>` -/
+def pRelocated : P (Location × List Char) := do
+  let m ← pOutLoc
+  if m == .empty then pure (m, [])
+  else do
+    match (← tok) with
+    | ";" => pure ()
+    | t => throw s!";? {t}"
+    let t ← tok
+    pure (m, t.toList.drop 1)
+
 def allSome {α} : List (Option α) → Option (List α)
   | [] => some []
   | none :: _ => none
@@ -61,6 +83,15 @@ def ops : List (String × Op) := [
           let up : Location := .compound ⟨sortBlocks upStrand upBlocks, upStrand⟩
           -- the way up merges adjacent blocks (optimize_blocks), so only the covered bases are compared
           pure (verdict (okChunkDown up (a2, b2) s2 a false))
-      | none => pure (verdict a.isNone))
+      | none => pure (verdict a.isNone)),
+  ("relocate", do
+      let g ← pChars; let a1 ← pNat; let b1 ← pNat; let s1 ← pStrand
+      let tx ← pOptRawLoc; let c ← pRawLoc; let tgt ← pTarget; pArrow; let a ← pAns pRelocated
+      let txv : Option (Option Location) := match tx with
+        | none => some none
+        | some r => (specBuild r).map some
+      match txv, specBuild c with
+      | some t, some x => pure (verdict (okRelocate g (a1, b1) s1 t x tgt a))
+      | _, _ => pure (verdict a.isNone))
 ]
 end BioCantor.Driver.SpecLift
